@@ -26,10 +26,12 @@ BUDGET_S = {"quick": 25, "thorough": 600}
 FLOORS = {
     "quick": {"evaluations": 30000, "distinct": 8000,
               "counters": {"lookahead_on_iterator": 5000, "else_taken": 1000, "filtered": 2000,
-                           "recursive": 100, "async_iterable": 1000, "wrapped_queries": 300}},
+                           "recursive": 100, "async_iterable": 1000, "wrapped_queries": 300,
+                           "iterables_with_undefined_elements": 30}},
     "thorough": {"evaluations": 300000, "distinct": 60000,
                  "counters": {"lookahead_on_iterator": 50000, "else_taken": 10000, "filtered": 20000,
-                              "recursive": 2000, "async_iterable": 10000, "wrapped_queries": 3000}},
+                              "recursive": 2000, "async_iterable": 10000, "wrapped_queries": 3000,
+                              "iterables_with_undefined_elements": 1000}},
 }
 
 ATTRS = ["index", "index0", "revindex", "revindex0", "first", "last", "length", "previtem", "nextitem"]
@@ -45,7 +47,15 @@ class Unsized:
         return iter(list(self.xs))
 
 
+def with_undefined(xs):
+    """Replace the marker -1 by an undefined object of the engine."""
+    import jinja2
+
+    return [jinja2.Undefined(name="hole") if x == -1 else x for x in xs]
+
+
 def make_iterable(form, xs):
+    xs = with_undefined(xs)
     if form == "list":
         return list(xs)
     if form == "tuple":
@@ -81,7 +91,7 @@ def script_stmts(script):
     return out
 
 
-WRAPS = [None, "if", "with", "setblock", "filterblock", "callblock", "nested"]
+WRAPS = [None, "if", "with", "setblock", "filterblock", "callblock", "nested", "scopedblock", "if-scopedblock", "with-scopedblock"]
 
 
 def wrap_stmts(inner, wrap):
@@ -99,6 +109,12 @@ def wrap_stmts(inner, wrap):
         return [["filterblock", "trim", [], inner]]
     if wrap == "callblock":
         return [["callblock", [], ["call", N("wrapmacro"), [], []], inner]]
+    if wrap == "scopedblock":
+        return [["block", "lb", inner, True, False]]
+    if wrap == "if-scopedblock":
+        return [["if", [[["const", True], [["block", "lb", inner, True, False]]]], None]]
+    if wrap == "with-scopedblock":
+        return [["with", [["wv", C(1)]], [["block", "lb", inner, True, False]]]]
     if wrap == "nested":
         return [["if", [[["const", True], [["callblock", [], ["call", N("wrapmacro"), [], []],
                                               [["with", [["wv", C(1)]], inner]]]]]], None]]
@@ -149,7 +165,7 @@ def check(ctx, envs, scripts, filt, with_else, form, xs, k=2, wrap=None):
         ctx.count("wrapped_queries")
     tm = get_templates(envs, key, body)
     it = M.Interp({"t": body})
-    mo = util.capture(lambda: it.render("t", {"seq": list(xs), "k": k}))
+    mo = util.capture(lambda: it.render("t", {"seq": with_undefined(list(xs)), "k": k}))
     case = {"scripts": [list(s) for s in scripts], "filt": filt, "else": with_else, "form": form,
             "xs": list(xs), "k": k, "wrap": wrap}
     for en, t in tm.items():
@@ -249,12 +265,21 @@ def run(ctx):
         n = rng.randint(0, 6)
         xs = [rng.randint(0, 9) for _ in range(n)]
         form = rng.choice(FORMS)
+        holes = False
+        if n and rng.random() < 0.2:
+            # some elements are undefined values: they are ordinary items for the loop
+            for _ in range(rng.randint(1, 2)):
+                xs[rng.randrange(n)] = -1
+            holes = True
+            ctx.count("iterables_with_undefined_elements")
         if rng.random() < 0.5:
             sc = [tuple(rng.choice(extra) for _ in range(rng.randint(0, 3)))]
         else:
             sc = [tuple(rng.choice(ATTRS) for _ in range(rng.randint(0, 2))) for _ in range(3)]
             ctx.count("varying_scripts")
-        filt = rng.choice([None, "odd", "gt"])
+        filt = None if holes else rng.choice([None, "odd", "gt"])
+        if holes:
+            sc = [tuple(a for a in s_ if a != "changed") for s_ in sc]
         wrap = rng.choice(WRAPS) if len(sc) == 1 and rng.random() < 0.5 else None
         check(ctx, envs, sc, filt, rng.random() < 0.6, form, xs, k=rng.randint(0, 9), wrap=wrap)
         if i % 10 == 0:
